@@ -619,6 +619,18 @@ def r8_no_clock_or_process_dependence(ctx, res):
                     res.find(key, loc, f'{f.qualname} uses {modname}.{attr} for writing (or in a way the analysis cannot follow): the output '
                                        f'carries the current time (gzip header bytes 4-7 / archive member times) unless mtime is fixed - two '
                                        f'runs with the same content and arguments write different bytes')
+    # the builtin hash() of a str / bytes is salted per process: outside __hash__ methods it must not be called at all
+    for f in ctx.repo.all_funcs():
+        if f.name == '__hash__':
+            continue
+        for node in walk_no_nested(f.node):
+            if isinstance(node, ast.Call) and isinstance(node.func, ast.Name) and node.func.id == 'hash' and 'hash' not in f.params \
+                    and 'hash' not in f.module.funcs:
+                n += 1
+                key = f'env-source:{f.key}:hash()'
+                res.inst(key, f.module.loc(node), 'builtin hash() outside a __hash__ method')
+                res.find(key, f.module.loc(node), f'{f.qualname} calls the builtin hash(): for str / bytes it is salted per process '
+                                                  f'(PYTHONHASHSEED), so a value derived from it differs between processes')
     # module level: tables of openers (`_OPENERS = {'.gz': gzip.open}`) are used from functions - followed through their readers
     for m in ctx.repo.modules.values():
         for st in m.tree.body:
